@@ -295,7 +295,7 @@ def cleartext_writer(rep, prog, M, A):
                       expected="','.join(<the .hash_algorithm.name of every signature>)", found=found)
             if ok:
                 # the decision that put the header there is about that same collection being non-empty
-                pol = _emptiness_fact(s, coll_text)
+                pol = _emptiness_fact(s, coll_text, selfn)
                 rep.check(pol is True, 'C11.3', 'PGPMessage.__str__', 'Hash header present when %s' % ('there are signatures' if pol else 'undetermined / no signatures'),
                           'the Hash: header is written exactly when the message has signatures', where=st.where)
         else:
@@ -307,20 +307,10 @@ def cleartext_writer(rep, prog, M, A):
     return writer_unicode
 
 
-def _emptiness_fact(s, coll_node):
-    """True / False when the path decided that the collection the names come from is non-empty / empty; None if it did not."""
+def _emptiness_fact(s, coll_node, selfn=None):
+    """True / False when the path decided that the collection the names come from (or the signature list itself) is non-empty /
+    empty; None if it did not."""
     want = _names_collection_key(coll_node)
-    for t, val, sk in s.facts:
-        n = T.parse_term(t)
-        neg = False
-        while isinstance(n, ast.UnaryOp) and isinstance(n.op, ast.Not):
-            n, neg = n.operand, not neg
-        if n is not None and _names_collection_key(n) == want and want is not None:
-            return (not val) if neg else val
-    return None
-
-
-def _any_emptiness_fact(s, selfn):
     for t, val, sk in s.facts:
         n = T.parse_term(t)
         neg = False
@@ -329,9 +319,13 @@ def _any_emptiness_fact(s, selfn):
         if n is None:
             continue
         k = _names_collection_key(n)
-        if k is not None or T.show(n) in ('%s.signatures' % selfn, '%s._signatures' % selfn):
+        if (k is not None and (want is None or k == want)) or (selfn is not None and T.show(n) in ('%s.signatures' % selfn, '%s._signatures' % selfn)):
             return (not val) if neg else val
     return None
+
+
+def _any_emptiness_fact(s, selfn):
+    return _emptiness_fact(s, None, selfn)
 
 
 def _names_collection_key(node):
